@@ -44,4 +44,7 @@ PROP = dict(
            "syntax.set", "syntax.mask", "syntax.csvDecodeFnBody", "syntax.csvEncodeFnBody",
            "syntax.jsonDecodeFnBody", "syntax.jsonEncodeFnBody", "syntax.yamlDecodeFnBody", "syntax.yamlEncodeFnBody",
            "syntax.bytesOrStringAsUTF8"],
+    # no C13 operation can legitimately run for seconds; a generous limit keeps a loaded machine from
+    # producing spurious "timeout" observables (a real hang is still reported, after 60 s)
+    env={"HARNESS_TIMEOUT_MS": "60000"},
 )
